@@ -439,6 +439,9 @@ distinct (key class, length class) stream cells",
         let mut rep = Rep::new();
         let mut rng = Rng::new(seed, 0x7100 + sh as u64 + ((period as u64) << 32));
         let per = (nkeys as usize + shards - 1) / shards;
+        if nkeys >= 100 && sh % 3 != 0 {
+            other_module_noise(&mut rng);
+        }
         for i in 0..per {
             let (k, kclass): ([u8; 40], u64) = match (sh * per + i) % 16 {
                 0 => ([0u8; 40], 0),
@@ -754,6 +757,21 @@ distinct = (key class, directions crossing 256 / 65536 bytes) cells + session ke
         let mut rep = Rep::new();
         let mut rng = Rng::new(seed, 0x9000 + sh as u64);
         let per = (nkeys + shards - 1) / shards;
+        if nkeys >= 100 {
+            // the first header crypto built in the life of some threads belongs to another expansion
+            let k: [u8; 40] = rng.arr();
+            match sh % 3 {
+                1 => {
+                    let (mut c, _) = objs::tbc_pair(k);
+                    let _ = c.encrypt_client_header(4, 1);
+                }
+                2 => {
+                    let (mut c, _) = objs::vanilla_pair(k);
+                    let _ = c.encrypt_client_header(4, 1);
+                }
+                _ => {}
+            }
+        }
         for i in 0..per {
             let (k, class) = match (sh * per + i) % 20 {
                 0 => ([0u8; 40], 0),
